@@ -2,6 +2,7 @@
 # tools/confirm_seed_tests.sh <seeded dir>...  - applies each patch.diff to a scratch worktree of /repo HEAD, runs the repository's
 # unit + fuzz tests and the demo both ways, prints one line per seed (used when eval_seeded.sh was run with SKIP_TESTS=1)
 for d in "$@"; do
+  d=$(cd "$d" && pwd)
   name=$(basename "$d")
   wt=$(mktemp -d /tmp/seedtest.XXXXXX)
   git -C /repo worktree add -q --detach "$wt" HEAD || { echo "$name worktree-failed"; continue; }
